@@ -29,9 +29,11 @@ MUTANTS = [
     M("route-no-rewind-after", D, "            finally:\n                attachment.data.seek(0)\n\n    def get_full_text(self) -> str:\n        return _join_unit_text(self.iterate_units())\n\n    def get_metadata(self) -> EmailMetadata:", "            finally:\n                pass\n\n    def get_full_text(self) -> str:\n        return _join_unit_text(self.iterate_units())\n\n    def get_metadata(self) -> EmailMetadata:", "C16-ROUTE"),
     M("route-failure-aborts", D, "            except Exception as exc:\n                logger.debug(\n                    \"Failed to extract attachment: %s (mime=%s) error=%s\",\n                    attachment.filename,\n                    attachment.mime_type,\n                    exc,\n                )\n", "            except Exception as exc:\n                logger.debug(\n                    \"Failed to extract attachment: %s (mime=%s) error=%s\",\n                    attachment.filename,\n                    attachment.mime_type,\n                    exc,\n                )\n                raise\n", "C16-ROUTE"),
     M("attachment-transcoded", EM, "        data_stream = io.BytesIO(data)\n", "        if mime_type.startswith(\"text/\"):\n            data = data.decode(\"latin-1\").encode(\"utf-8\")\n        data_stream = io.BytesIO(data)\n", "C16-BYTES"),
+    M("attachment-gated-on-mime-alone", D, "            if not attachment.is_supported_mime_type and not is_supported_file(\n                attachment.filename or \"\"\n            ):", "            if not attachment.is_supported_mime_type:", "C16-ROUTE"),
 ]
 
 TWINS = [
+    T("attachment-gate-name-first", D, "            if not attachment.is_supported_mime_type and not is_supported_file(\n                attachment.filename or \"\"\n            ):", "            if not is_supported_file(attachment.filename or \"\") and not attachment.is_supported_mime_type:"),
     T("separator-optional-cr-as-class", MBOX, "MBOX_FROM_PATTERN = re.compile(rb\"^From \\S+[ \\t][^\\r\\n]*\\d{4}\\r?\\n\", re.MULTILINE)", "MBOX_FROM_PATTERN = re.compile(rb\"(?m)^From \\S+[ \\t][^\\r\\n]*\\d{4}(?:\\r\\n|\\n)\")"),
     T("separator-blank-line-aware-both-eols", MBOX, "MBOX_FROM_PATTERN = re.compile(rb\"^From \\S+[ \\t][^\\r\\n]*\\d{4}\\r?\\n\", re.MULTILINE)", "MBOX_FROM_PATTERN = re.compile(rb\"(?:\\A|(?<=\\n\\n)|(?<=\\n\\r\\n))From \\S+[ \\t][^\\r\\n]*\\d{4}\\r?\\n\")"),
     T("mbox-attachment-loop-names-swapped", MBOX, "        filename = part.get_filename()\n        content_disposition = str(part.get(\"Content-Disposition\", \"\"))\n", "        content_disposition = str(part.get(\"Content-Disposition\", \"\"))\n        filename = part.get_filename()\n"),
